@@ -873,6 +873,26 @@ def corpus_cases(prop: str, tier: str) -> List[Dict[str, Any]]:
     return out
 
 
+def fraggraph_cases(prop: str, tier: str, seed: int, n: int) -> List[Dict[str, Any]]:
+    """Fragment usage graphs over a fixed schema (gen/fraggraph.py): which fragments are base classes somewhere, only unpacked, or reached only through another fragment
+    differs from operation to operation of one document; every document also runs with its definitions reversed."""
+    from ..gen.fraggraph import generate
+    out: List[Dict[str, Any]] = []
+    k = 0
+    while len(out) < n and k < 4 * n:
+        g = generate(seed * 1000003 + k)
+        k += 1
+        defs = list(g["fragments"]) + list(g["operations"])
+        if merged_composite_keys("\n\n".join(defs)):
+            continue  # an own selection meeting a fragment's selection of the same composite field: the listed merge finding, driven where it is switched on
+        if len(out) % 2:
+            defs = defs[::-1]
+        out.append({"seed": seed, "idx": 960000 + len(out), "dirty": [], "cfg": CONFIGS[len(out) % len(CONFIGS)], "props": [prop], "tier": tier,
+                    "corpus": "fraggraph/%d" % (k - 1), "_sdl": g["sdl"], "_queries": "\n\n".join(defs),
+                    "_features": list(g["features"]) + (["fraggraph.reversed_definitions"] if len(out) % 2 else []), "_no_regen": True})
+    return out
+
+
 def run_shared(prop: str, tier: str, seed: int, n_cases: int, rule: str, floors: Dict[str, int], dirty_sets: Optional[List[List[str]]] = None,
                level: str = "exploration", extra_case_kw: Optional[Dict[str, Any]] = None, timeout_s: float = 180.0, case_hook=None) -> int:
     r = core.Run(prop, tier, seed, level=level)
@@ -900,6 +920,7 @@ def run_shared(prop: str, tier: str, seed: int, n_cases: int, rule: str, floors:
 
     if prop in ("C01", "C02", "C04", "C05"):
         cases.extend(corpus_cases(prop, tier))
+        cases.extend(fraggraph_cases(prop, tier, seed, {"C01": 60, "C02": 120, "C04": 80, "C05": 40}[prop] * (8 if tier == "thorough" else 1)))
 
     def on_result(case, res):
         r.add(case, res)
